@@ -524,7 +524,7 @@ func genParse(c *Ctx) {
 		}
 		pc := parseCase{entry: parseRandEntry(r), stream: s, cuts: cuts, ending: parseRandEnding(r, 0)}
 		pc.randStopAndID(r)
-		switch r.Intn(6) {
+		switch r.Intn(7) {
 		case 0: // a limit around the stream's size or smaller
 			pc.maxSize = int64(1 + r.Intn(l+3))
 			count("limit:random")
@@ -539,6 +539,16 @@ func genParse(c *Ctx) {
 				pc.hasBuf, pc.capBuf = true, r.Intn(2*l+2)
 				pc.maxSize = int64(r.Intn(2*l+2)) - 2
 				count("limit:buffer")
+			}
+		case 3:
+			if pc.entry == 0 {
+				// a ReadConfig that is set but leaves MaxEventSize unset (zero) or negative: the default limit applies
+				pc.hasBuf, pc.capBuf, pc.maxSize = true, 0, []int64{0, 0, -1, -7}[r.Intn(4)]
+				count("limit:config-without-size")
+			} else {
+				// "unlimited": the largest ints as the limit, no buffer given
+				pc.maxSize = []int64{9223372036854775807, 9223372036854775806, 4611686018427387903}[r.Intn(3)]
+				count("limit:maximal")
 			}
 		default:
 			count("limit:default")
